@@ -8,31 +8,39 @@ PID = "C08"
 
 CLAIM = dict(
     text="PARTIAL by design. wasmparser's validator and its type information are external Rust code and stay oracles "
-         "(assumed well-formed: finite, well-founded type graph, unique import/export names); the Coq theorems are about the "
-         "wac conversion logic -- an executable model of Package::from_bytes / TypeConverter with its cache, owners, "
-         "resource_map, use_or_own, self-ownership reset and find_definitions -- over an abstract copy of the validator's "
-         "type graph. Proved: the world lists exactly the component's imports and exports in order with the right kinds "
-         "and the instance type is the export list (convert_lists_exactly); on the resource-free fragment every item "
-         "unfolds to exactly the tree of the validator entity: parameter names/order/result/async flag, every value-type "
-         "constructor, names and order inside nested instance and component types, core module types "
-         "(convert_tree_faithful_partial); the cache is never overwritten and the same validator identifier always converts "
-         "to the same wac identifier (convert_cache_consistent, model level). Resource aliasing, used-type provenance and "
-         "the one-to-one correspondence of identifiers are SPECIFIED (ConvertSpec.v) and evaluated as executable predicates "
-         "on every implementation observation, not proved. Agreement with the reference validator is checked by "
-         "correspondence only: for every generated component (WIT worlds through wit-component, shaped WAT) an independent "
-         "wasmparser walk produces the type graph, the real Package::from_bytes result is compared arena by arena with the "
-         "extracted model and against the specification predicates; the satisfiability half is a TEST, not a theorem: the "
-         "package is re-encoded with define_components=false and the ORIGINAL component is substituted for the emitted "
-         "unlocked-dep import inside an outer component validated by wasmparser. Eleven defects/limitations found this way "
-         "are reported as known findings.",
+         "(assumed well-formed: finite, well-founded, well-typed type graph, unique import/export names -- well-typedness is "
+         "checked on every case); the Coq theorems are about the wac conversion logic -- an executable model of "
+         "Package::from_bytes / TypeConverter with its cache, owners, resource_map, use_or_own (incl. the repaired "
+         "remember-created step), self-ownership reset and find_definitions -- over an abstract copy of the validator's "
+         "type graph. Proved (11 theorems): the world lists exactly the component's imports and exports in order with the "
+         "right kinds and the instance type is the export list; on the resource-free fragment every item unfolds to exactly "
+         "the tree of the validator entity (parameter names/order/result/async, every value-type constructor, nested "
+         "instance/component types, core module types); the cache is never overwritten, the same validator identifier always "
+         "converts to the same wac identifier and distinct validator identifiers never share a wac slot; the `uses` field of "
+         "every interface and world is exactly what the first-owner rule computes from the type items in conversion order "
+         "(ghost log), the owners table is the rule's origin table, and every entry points to another interface and to an item "
+         "that was its first owner; converted resources have the same alias root iff the validator gives them the same "
+         "resource; with fuel above the ranks the conversion never runs out of fuel; on a well-typed graph it never raises "
+         "a bad-index, invalid-cached-type or duplicate-item panic, and the dup-owner panic (finding F1) occurs exactly when "
+         "the referenced type has no origin while an earlier type item has the same created identifier. NOT proved: "
+         "faithfulness below own/borrow, exclusion of the expected-a-resource panic, the graph-level form of the F1 "
+         "predicate (checked per case instead), the success of the joint traversal used by the observational predicates. "
+         "Agreement with the reference validator is checked by correspondence only: for every generated component (WIT "
+         "worlds through wit-component, shaped WAT) an independent wasmparser walk produces the type graph, the real "
+         "Package::from_bytes result is compared arena by arena with the extracted model and against the specification "
+         "predicates; the satisfiability half is a TEST, not a theorem: the package is re-encoded with "
+         "define_components=false and the ORIGINAL component is substituted for the emitted unlocked-dep import inside an "
+         "outer component validated by wasmparser. Ten defects/limitations found this way are known findings, one is fixed.",
     design_ref="DESIGN.md §5 C08, §10",
     note="Trusted: Coq kernel, extraction, OCaml driver (incl. structural equality of extracted trees), Rust harness "
          "(validator-graph dumper, arena printer, outer-component assembler), wasmparser/wit-component/wit-parser/"
-         "wasm-encoder/wat as reference tools. TypeEncoder (the re-encoding half) is not modelled: it is checked on the "
-         "implementation only.",
-    technique="Coq proof (robust cache invariant over a fuel-indexed, state-threading conversion; arena frame relation; "
-              "rank argument for the cache) + extracted-model correspondence (whole-arena equality) + specification "
-              "predicates on implementation observations + reference-validator substitution test")
+         "wasm-encoder/wat as reference tools. The model state carries a ghost log of the use_or_own calls that nothing reads. "
+         "TypeEncoder (the re-encoding half) is not modelled: it is checked on the implementation only.",
+    technique="Coq proof (robust cache invariant over a fuel-indexed, state-threading conversion; arena frame relation; rank "
+              "arguments for cache and fuel; replay of a ghost log for used-type provenance; freshness frame for identifier "
+              "injectivity and resource roots; progress under graph well-typedness) + extracted-model correspondence "
+              "(whole-arena equality) + specification predicates on implementation observations + reference-validator "
+              "substitution test")
 
 # ---------------------------------------------------------------------------------------------------------------------
 # Findings proposed to the main session (see the final report).  Consulted locally so that the check exits 0 on the
@@ -369,6 +377,7 @@ def analyse(cases, impl, model):
     kinds, statuses = {}, {}
     nontriv = set()
     trees_checked = 0
+    f1_true = [0]
     general_encoder = 0
     for n, (c, i, m) in enumerate(zip(cases, impl, model)):
         cf = c.split("\t"); kind, src, graph = cf[2], cf[3], cf[4]
@@ -391,10 +400,17 @@ def analyse(cases, impl, model):
         # ---- (b) the specification on the implementation's own observation
         fails = []
         feats, a = (set(), None)
+        vm0 = dict(x.split("=") for x in verdicts.split(" ")) if "=" in verdicts else {}
+        if vm0.get("f1") == "1":
+            f1_true[0] += 1
         if obs.startswith("PANIC:") or obs.startswith("ERR:"):
             fails.append(("load", obs[:200]))
-            if graph_f1(graph):
+            # the graph-level predicate of finding F1 (ConvertSpec.shares_created_b, evaluated by the driver): two type
+            # items share an aliasable created identifier; dup_owner_situation proves the panic needs such a pair
+            if graph_f1(graph) and vm0.get("f1") == "1":
                 feats.add("F1")
+            if vm0.get("wt") != "1":
+                fails.append(("wt", "the validator type graph is not well-typed"))
         else:
             feats, a = features(obs, graph)
             if nontrivial(a):
@@ -409,7 +425,9 @@ def analyse(cases, impl, model):
                                            "signature, value-type constructors)"),
                                   ("ids", "validator identifiers and wac identifiers are not one-to-one (cache consistency)"),
                                   ("res", "resource identity/aliasing differs from the validator's resources"),
-                                  ("uses", "used-type provenance (uses entries) differs from the specification")):
+                                  ("uses", "used-type provenance (uses entries) differs from the specification"),
+                                  ("wt", "the validator type graph is not well-typed (oracle assumption of the panic-freedom "
+                                         "theorem: reference sorts, unique item names)")):
                     if vm.get(key) != "1":
                         fails.append((key, what))
                 if tb != "1":
@@ -441,7 +459,8 @@ def analyse(cases, impl, model):
         prop_fail.append((replay_case, pretty, fails, obs[:400], reenc[:400], sorted(feats)))
 
     return dict(known=known, known_hits=known_hits, disagreements=disagreements, prop_fail=prop_fail, kinds=kinds,
-                statuses=statuses, nontriv=nontriv, trees_checked=trees_checked, general_encoder=general_encoder)
+                statuses=statuses, nontriv=nontriv, trees_checked=trees_checked, general_encoder=general_encoder,
+                f1_true=f1_true[0])
 
 
 def run(res, tier, seed, replay):
@@ -497,7 +516,7 @@ def run(res, tier, seed, replay):
         disagreements=len(disagreements), spec_failures_on_impl=len(prop_fail),
         known_finding_cases={k: len(v) for k, v in known_hits.items()},
         reencode_status=statuses, trees_checked_resource_free=trees_checked,
-        encoder_failures_independent_of_mode=general_encoder,
+        encoder_failures_independent_of_mode=general_encoder, graphs_with_f1_predicate=r["f1_true"],
         distinct_nontrivial=len(nontriv),
         rule="one case = one valid component (11 fixed shapes + corpus + generated WIT worlds + shaped WAT: quick 150+60, "
              "thorough 6000+2500, minus sources the reference tools reject). non-trivial = distinct validator graphs whose decoded world has a `uses` entry, an aliased "
@@ -510,6 +529,8 @@ def run(res, tier, seed, replay):
             "model Convert.v (package.rs TypeConverter + from_bytes) is hand-written; tied by whole-arena equality on every case",
             "core module types are read by the harness (core.rs TryFrom conversions are not modelled); "
             "ComponentName interface-name classification enters as per-case data",
+            "graph well-typedness (wt_graph_b: reference sorts, unique item names) and well-foundedness (ranked, peel ranks) "
+            "are hypotheses of the totality theorems; well-typedness is evaluated on every case, well-foundedness is assumed",
             "TypeEncoder / CompositionGraph::encode are NOT modelled: the satisfiability half is a test against the "
             "reference validator on every generated component, not a theorem",
             "harness assembles the outer component by copying the output's leading type/import/alias sections verbatim"]))
